@@ -299,6 +299,20 @@ func c02MaxSizeValues() []m.Packet {
 	tw := &m.TWCC{Sender: 1, Media: 2, StatusCount: 1, Chunks: make([]m.TWCCChunk, 131062)}
 	tw.Chunks[131061] = m.TWCCChunk{Symbol: 0, Run: 1}
 	gen.FixTWCCHeader(tw, false)
+	// ... and with a receive delta behind more than 65535 chunks (262143 octets + 1 of padding)
+	tw2 := &m.TWCC{Sender: 1, Media: 2, StatusCount: 1, Chunks: make([]m.TWCCChunk, 131061), Deltas: []m.TWCCDelta{{Micros: 250 * 77}}}
+	tw2.Chunks[131060] = m.TWCCChunk{Symbol: m.SymSmall, Run: 1}
+	gen.FixTWCCHeader(tw2, true)
+	// SDES: a second chunk behind one of more than 64 KiB
+	bigChunk := m.SDESChunk{Source: 8}
+	for i := 0; i < 600; i++ {
+		txt := make([]byte, 255)
+		for j := range txt {
+			txt[j] = byte('A' + (i+j)%26)
+		}
+		bigChunk.Items = append(bigChunk.Items, m.SDESItem{Type: 2, Text: txt})
+	}
+	twoChunks := &m.SDES{Chunks: []m.SDESChunk{bigChunk, {Source: 9, Items: []m.SDESItem{{Type: 1, Text: []byte("second")}}}}}
 	// the same limit reached with as many elements as possible instead of as large ones
 	manyBlocks := &m.XR{Sender: 2}
 	for i := 0; i < 65534; i++ { // 65534 empty unknown blocks of one word each = 262144 octets
@@ -325,6 +339,8 @@ func c02MaxSizeValues() []m.Packet {
 		{Kind: m.KSDES, SDES: &m.SDES{Chunks: []m.SDESChunk{chunk}}},
 		{Kind: m.KFIR, FIR: fir},
 		{Kind: m.KTWCC, TWCC: tw},
+		{Kind: m.KTWCC, TWCC: tw2},
+		{Kind: m.KSDES, SDES: twoChunks},
 		{Kind: m.KAPP, APP: &m.APP{Subtype: 3, SSRC: 9, Name: []byte("abcd"), Data: make([]byte, 65523)}},
 		{Kind: m.KSR, SR: &m.SR{SSRC: 1, Ext: make([]byte, 262144-28)}},
 		{Kind: m.KRR, RR: &m.RR{SSRC: 1, Ext: make([]byte, 262144-8)}},
